@@ -13,6 +13,23 @@ def check_self_attrs(ctx, res: Result, cls_name: str, rule="C-ATTR"):
     class variable."""
     ci = ctx.prog.cls(cls_name)
     known = ci.all_self_attrs()
+    # attributes created by name: `setattr(self, <name>, value)` / `self.__dict__[...] = ` / `vars(self).update(...)`.  A
+    # constant name is a definition like any other; a computed one opens the world (the names may sit in a table)
+    dynamic = False
+    for m in ci.methods.values():
+        for n in ast.walk(m.node):
+            if isinstance(n, ast.Call) and isinstance(n.func, ast.Name) and n.func.id == "setattr" and len(n.args) >= 2 and isinstance(n.args[0], ast.Name) and n.args[0].id == "self":
+                if isinstance(n.args[1], ast.Constant) and isinstance(n.args[1].value, str):
+                    known = set(known) | {n.args[1].value}
+                else:
+                    dynamic = True
+            if isinstance(n, ast.Attribute) and n.attr == "__dict__" and isinstance(n.value, ast.Name) and n.value.id == "self":
+                dynamic = True
+            if isinstance(n, ast.Call) and isinstance(n.func, ast.Name) and n.func.id == "vars" and n.args and isinstance(n.args[0], ast.Name) and n.args[0].id == "self":
+                dynamic = True
+    table_names = set()
+    if dynamic:
+        table_names = {x.value for x in ast.walk(ci.module.tree) if isinstance(x, ast.Constant) and isinstance(x.value, str) and x.value.isidentifier()}
     n_reads = 0
     for m in ci.methods.values():
         for n in ast.walk(m.node):
@@ -21,7 +38,10 @@ def check_self_attrs(ctx, res: Result, cls_name: str, rule="C-ATTR"):
                     continue
                 n_reads += 1
                 if n.attr not in known:
-                    res.violation(rule, m.short, norm(n), n.attr, f"`self.{n.attr}` is read but {cls_name} never defines it (AttributeError when this line runs)", loc(m, n))
+                    if dynamic:
+                        res.unknown(rule, m.short, norm(n), n.attr, f"`self.{n.attr}` has no plain assignment; the class creates attributes by computed name (setattr)" + (" and a table of the module lists this name" if n.attr in table_names else ""), loc(m, n))
+                    else:
+                        res.violation(rule, m.short, norm(n), n.attr, f"`self.{n.attr}` is read but {cls_name} never defines it (AttributeError when this line runs)", loc(m, n))
     res.ok(rule, cls_name, f"{n_reads} self-attribute reads resolve", "scan", ci.module.relpath)
     return n_reads
 
